@@ -69,6 +69,9 @@ fn pool(v6: bool) -> Vec<&'static str> {
     }
 }
 
+/// X-Forwarded-For entries that are not addresses (skipped by a parser that keeps the valid ones).
+const JUNK: [&str; 5] = ["unknown", "", "10.0.0.1:4711", "[2001:db8::1]", "_hidden"];
+
 const ROUTED: [&str; 7] = ["file", "dir", "proxy", "redirect", "dir-sub-redirect", "dir-index", "dir-missing"];
 
 fn path_of(kind: &str) -> &'static str {
@@ -96,11 +99,11 @@ impl Prop for C19 {
     fn runs(&self, tier: Tier) -> u64 {
         match tier {
             Tier::Quick => 20_000,
-            Tier::Thorough => 1_500_000,
+            Tier::Thorough => 1_000_000,
         }
     }
     fn rule(&self) -> &'static str {
-        "One case = the whole server started from a generated Config (blacklist mode block/forbidden x list empty / the client's address / others, IPv4, IPv6, or IPv4 clients on a dual-stack [::] listener x routes of all four types: file, directory, proxy to a scripted upstream, redirect x cache on/off x 1..4 threads) and 1..3 clients connecting from chosen source addresses (loopback, private, documentation ranges; IPv6) sending 1..4 keep-alive requests each on routed paths (a file route; a directory route: a file in it, a sub-directory without and with the trailing slash, a missing file; a proxy route; a redirect route) and unrouted paths with X-Forwarded-For absent or listing listed/unlisted addresses (',' or ', ' separators, several entries); a history dimension: an unlisted client warms the cache for the path a listed client then asks. Distinct = distinct (mode, listedness of peer and of each forwarded entry, route kind, position in the connection, cache state, outcome); non-trivial = the blacklist is non-empty and at least one request involves a listed address."
+        "One case = the whole server started from a generated Config (blacklist mode block/forbidden x list empty / the client's address / others, IPv4, IPv6, or IPv4 clients on a dual-stack [::] listener x routes of all four types: file, directory, proxy to a scripted upstream, redirect x cache on/off x 1..4 threads) and 1..3 clients connecting from chosen source addresses (loopback, private, documentation ranges; IPv6) sending 1..4 keep-alive requests each on routed paths (a file route; a directory route: a file in it, a sub-directory without and with the trailing slash, a missing file; a proxy route; a redirect route) and unrouted paths with X-Forwarded-For absent or listing listed/unlisted addresses (',' or ', ' separators, several entries, sometimes with an entry that is not an address among them); a history dimension: an unlisted client warms the cache for the path a listed client then asks. Distinct = distinct (mode, listedness of peer and of each forwarded entry, route kind, position in the connection, cache state, outcome); non-trivial = the blacklist is non-empty and at least one request involves a listed address."
     }
     fn assumptions(&self) -> Vec<String> {
         vec![
@@ -111,7 +114,7 @@ impl Prop for C19 {
         ]
     }
     fn expected_counters(&self) -> Vec<&'static str> {
-        vec!["c19.dual_stack_listener", "c19.block_mode", "c19.forbidden_mode", "c19.listed_peer_requests", "c19.forged_xff_by_listed_peer", "c19.unlisted_peer_forwarding_listed", "c19.all_unlisted_requests", "c19.ipv6_runs", "c19.cache_on", "c19.kind.file", "c19.kind.dir", "c19.kind.dir-sub-redirect", "c19.kind.dir-index", "c19.kind.dir-missing", "c19.kind.proxy", "c19.kind.redirect", "c19.kind.unrouted", "c19.cache_warmed_then_listed"]
+        vec!["c19.xff_with_unparseable_entry", "c19.dual_stack_listener", "c19.block_mode", "c19.forbidden_mode", "c19.listed_peer_requests", "c19.forged_xff_by_listed_peer", "c19.unlisted_peer_forwarding_listed", "c19.all_unlisted_requests", "c19.ipv6_runs", "c19.cache_on", "c19.kind.file", "c19.kind.dir", "c19.kind.dir-sub-redirect", "c19.kind.dir-index", "c19.kind.dir-missing", "c19.kind.proxy", "c19.kind.redirect", "c19.kind.unrouted", "c19.cache_warmed_then_listed"]
     }
     fn real_vs_stub(&self) -> (Vec<&'static str>, Vec<&'static str>) {
         (vec!["humphrey_server::server::server::main (whole), verify_connection, file/directory/redirect/proxy handlers, blacklist_check, cache, Logger + monitor thread, humphrey::App, Address::from_headers, proxy_request"], vec!["TCP with arbitrary peer addresses, threads, clocks (humsim)", "upstream and clients are harness reference implementations", "std::fs real"])
@@ -148,6 +151,17 @@ impl Prop for C19 {
                         _ => rng.range(2, 3),
                     } as usize;
                     let xff = (0..nx).map(|_| if !list.is_empty() && rng.chance(1, 2) { list[rng.usize_below(list.len())].clone() } else { p[rng.usize_below(p.len())].to_string() }).collect();
+                    let mut xff: Vec<String> = xff;
+                    // one request in five carries an entry that is not an address among the valid ones
+                    // (an empty entry, `unknown`, an address with a port, a bracketed IPv6 address, an
+                    // obfuscated identifier): such an entry is skipped, the others still count
+                    {
+                        let mut r3 = Rng::new(humsim::rng::mix(&[rng.next_u64(), 0xC19_0003]));
+                        if !xff.is_empty() && r3.chance(1, 5) {
+                            let at = r3.usize_below(xff.len() + 1);
+                            xff.insert(at, JUNK[r3.usize_below(JUNK.len())].to_string());
+                        }
+                    }
                     Rq { kind, xff, xff_sep: if rng.chance(1, 2) { ",".into() } else { ", ".into() } }
                 })
                 .collect();
@@ -315,7 +329,10 @@ impl Prop for C19 {
             }
             for (i, r) in c.reqs.iter().enumerate() {
                 rr.count(&format!("c19.kind.{}", if ROUTED.contains(&r.kind.as_str()) { r.kind.as_str() } else { "unrouted" }), 1);
-                let chain: Vec<IpAddr> = r.xff.iter().map(|a| fix(a)).collect();
+                if r.xff.iter().any(|a| JUNK.contains(&a.as_str())) {
+                    rr.count("c19.xff_with_unparseable_entry", 1);
+                }
+                let chain: Vec<IpAddr> = r.xff.iter().filter(|a| !JUNK.contains(&a.as_str())).map(|a| fix(a)).collect();
                 let origin_listed = chain.last().map(listed).unwrap_or(false);
                 let middle_listed = chain.len() > 1 && chain[..chain.len() - 1].iter().any(listed);
                 let must_forbid = scn.mode == "forbidden" && (peer_listed || origin_listed);
